@@ -98,10 +98,10 @@ func (t TI) Encode(enc *cbor.StreamEncoder) error {
 	}
 	return enc.EncodeUint64(t.N)
 }
-func (t TI) IsComposite() bool      { return t.Comp }
-func (t TI) Copy() atree.TypeInfo   { return t }
-func (t TI) String() string         { return fmt.Sprintf("TI(%d,%v)", t.N, t.Comp) }
-func (t TI) Identifier() string     { return t.String() }
+func (t TI) IsComposite() bool    { return t.Comp }
+func (t TI) Copy() atree.TypeInfo { return t }
+func (t TI) String() string       { return fmt.Sprintf("TI(%d,%v)", t.N, t.Comp) }
+func (t TI) Identifier() string   { return t.String() }
 
 func DecodeTypeInfo(dec *cbor.StreamDecoder) (atree.TypeInfo, error) {
 	t, err := dec.NextType()
@@ -149,12 +149,13 @@ func (v U64) Storable(atree.SlabStorage, atree.Address, uint32) (atree.Storable,
 	return v, nil
 }
 func (v U64) StoredValue(atree.SlabStorage) (atree.Value, error) { return v, nil }
-func (v U64) ChildStorables() []atree.Storable                    { return nil }
-func (v U64) CanCopyNonRefSimple() bool                           { return true }
-func (v U64) CopyNonRefSimple() (atree.Storable, error)           { return v, nil }
+func (v U64) ChildStorables() []atree.Storable                   { return nil }
+func (v U64) CanCopyNonRefSimple() bool                          { return true }
+func (v U64) CopyNonRefSimple() (atree.Storable, error)          { return v, nil }
+
 // like Cadence and the repository's own test values, the size of an unsigned integer comes from the library's helper
-func (v U64) ByteSize() uint32                                    { return cborTagLen + atree.GetUintCBORSize(uint64(v)) }
-func (v U64) String() string                                      { return fmt.Sprintf("%d", uint64(v)) }
+func (v U64) ByteSize() uint32 { return cborTagLen + atree.GetUintCBORSize(uint64(v)) }
+func (v U64) String() string   { return fmt.Sprintf("%d", uint64(v)) }
 func (v U64) Encode(enc *atree.Encoder) error {
 	if err := enc.CBOR.EncodeRawBytes([]byte{0xd8, tagU64}); err != nil {
 		return err
@@ -181,11 +182,11 @@ func (v Byte) Storable(atree.SlabStorage, atree.Address, uint32) (atree.Storable
 	return v, nil
 }
 func (v Byte) StoredValue(atree.SlabStorage) (atree.Value, error) { return v, nil }
-func (v Byte) ChildStorables() []atree.Storable                    { return nil }
-func (v Byte) CanCopyNonRefSimple() bool                           { return true }
-func (v Byte) CopyNonRefSimple() (atree.Storable, error)           { return v, nil }
-func (v Byte) ByteSize() uint32                                    { return cborTagLen + uintSize(uint64(v)) }
-func (v Byte) String() string                                      { return fmt.Sprintf("b%d", byte(v)) }
+func (v Byte) ChildStorables() []atree.Storable                   { return nil }
+func (v Byte) CanCopyNonRefSimple() bool                          { return true }
+func (v Byte) CopyNonRefSimple() (atree.Storable, error)          { return v, nil }
+func (v Byte) ByteSize() uint32                                   { return cborTagLen + uintSize(uint64(v)) }
+func (v Byte) String() string                                     { return fmt.Sprintf("b%d", byte(v)) }
 func (v Byte) Encode(enc *atree.Encoder) error {
 	if err := enc.CBOR.EncodeRawBytes([]byte{0xd8, tagByte}); err != nil {
 		return err
@@ -208,10 +209,10 @@ func (v Str) Storable(st atree.SlabStorage, addr atree.Address, maxInline uint32
 	return v, nil
 }
 func (v Str) StoredValue(atree.SlabStorage) (atree.Value, error) { return v, nil }
-func (v Str) ChildStorables() []atree.Storable                    { return nil }
-func (v Str) CanCopyNonRefSimple() bool                           { return true }
-func (v Str) CopyNonRefSimple() (atree.Storable, error)           { return Str{strings.Clone(v.S)}, nil }
-func (v Str) Encode(enc *atree.Encoder) error                     { return enc.CBOR.EncodeString(v.S) }
+func (v Str) ChildStorables() []atree.Storable                   { return nil }
+func (v Str) CanCopyNonRefSimple() bool                          { return true }
+func (v Str) CopyNonRefSimple() (atree.Storable, error)          { return Str{strings.Clone(v.S)}, nil }
+func (v Str) Encode(enc *atree.Encoder) error                    { return enc.CBOR.EncodeString(v.S) }
 func (v Str) String() string {
 	if len(v.S) > 12 {
 		return fmt.Sprintf("%q..(%d)", v.S[:12], len(v.S))
